@@ -607,7 +607,8 @@ def field_names_and_lengths(fixed_cid):
         lower, upper = field_length_range
         assert lower is not None
         assert lower == upper
-        field_length = lower
+        # Decimal fields keep their length as decimal range, readers and writers need an ``int``.
+        field_length = int(lower)
         result.append((field_name, field_length))
     return result
 
